@@ -23,40 +23,46 @@ Init == p = <<>>
 Next == Len(p) < PLen /\ \E c \in PChars : p' = Append(p, c)
 
 Text(q) == [i \in 1..Len(q) |-> q[i].c]
-P == Parse(p)
-A == P.atoms
-OK == P.un = {}
+Star == [t |-> "s"]
+
+\* NOTE: every theorem binds the parse (and, where useful, the tabulated match
+\* set MS) once in a LET: TLC evaluates a LET definition at most once.
 
 \* a pattern without unquoted special characters denotes exactly itself
 T_Literal ==
+  LET P == Parse(p) IN
   (\A i \in 1..Len(p) : p[i].l \/ p[i].c \notin {"?", "*", "["})
-     => OK /\ ~P.mc /\ \A s \in Dom : MatchesA(A, s) <=> s = Text(p)
+     => P.un = {} /\ ~P.mc /\ \A s \in Dom : MatchesA(P.atoms, s) <=> s = Text(p)
 
 \* quoting every character makes any pattern denote exactly its text
 T_Quoted ==
-  LET q == [i \in 1..Len(p) |-> Lc(p[i].c)]
-  IN Specified(q) /\ \A s \in Dom : Matches(q, s) <=> s = Text(p)
+  LET P == Parse([i \in 1..Len(p) |-> Lc(p[i].c)])
+  IN P.un = {} /\ \A s \in Dom : MatchesA(P.atoms, s) <=> s = Text(p)
 
 \* without an unquoted "]" no "[" opens a bracket expression
 T_Unclosed ==
+  LET P == Parse(p) IN
   (\A i \in 1..Len(p) : ~IsN(p, i, "]"))
-     => OK /\ A = Parse([i \in 1..Len(p) |-> IF p[i].c = "[" THEN Lc("[") ELSE p[i]]).atoms
+     => P.un = {} /\ P.atoms = Parse([i \in 1..Len(p) |-> IF p[i].c = "[" THEN Lc("[") ELSE p[i]]).atoms
 
 \* concatenation: s is denoted by A1 A2 iff it splits into parts denoted by A1 and A2
 T_Concat ==
-  OK => \A k \in 0..Len(A) : \A s \in Dom :
+  LET P == Parse(p)  A == P.atoms IN
+  P.un = {} => \A k \in 0..Len(A) :
+     LET A1 == SubSeq(A, 1, k)  A2 == SubSeq(A, k + 1, Len(A)) IN
+     \A s \in Dom :
           MatchesA(A, s) <=>
-            \E m \in 0..Len(s) : /\ MatchesA(SubSeq(A, 1, k), SubSeq(s, 1, m))
-                                 /\ MatchesA(SubSeq(A, k + 1, Len(A)), SubSeq(s, m + 1, Len(s)))
+            \E m \in 0..Len(s) : MatchesA(A1, SubSeq(s, 1, m)) /\ MatchesA(A2, SubSeq(s, m + 1, Len(s)))
 
 \* "*" denotes every string; "?" every one-character string
 T_Wild ==
-  /\ p = <<Nc("*")>> => \A s \in Dom : MatchesA(A, s)
-  /\ p = <<Nc("?")>> => \A s \in Dom : MatchesA(A, s) <=> Len(s) = 1
+  /\ p = <<Nc("*")>> => \A s \in Dom : Matches(p, s)
+  /\ p = <<Nc("?")>> => \A s \in Dom : Matches(p, s) <=> Len(s) = 1
 
 \* a bracket expression denotes one character; "!" / "^" denote the set complement
 T_Complement ==
-  (OK /\ ~P.mc /\ Len(A) = 1 /\ A[1].t = "b") =>
+  LET P == Parse(p)  A == P.atoms IN
+  (P.un = {} /\ ~P.mc /\ Len(A) = 1 /\ A[1].t = "b") =>
      /\ \A s \in Dom : MatchesA(A, s) => Len(s) = 1
      /\ \A c \in SAlpha :
           MatchesA(A, <<c>>) # MatchesA(<<[A[1] EXCEPT !.neg = ~@]>>, <<c>>)
@@ -64,56 +70,83 @@ T_Complement ==
 
 \* ranges of a specified pattern are non-empty and inside ASCII
 T_Ranges ==
-  OK => \A n \in 1..Len(A) : A[n].t = "b" =>
+  LET P == Parse(p)  A == P.atoms IN
+  P.un = {} => \A n \in 1..Len(A) : A[n].t = "b" =>
            \A m \in 1..Len(A[n].items) :
               A[n].items[m].k = "r" =>
                  Code(A[n].items[m].lo) <= Code(A[n].items[m].hi) /\ Code(A[n].items[m].hi) < 128
 
-\* find / rfind: results are matching ranges; shortest <= longest at the same place;
-\* first <= last; unanchored search = "*" p "*"
+\* find / rfind (as defined by FindG / RFindG over the tabulated match set MS):
+\* results are matching ranges; shortest <= longest at the same place; first <= last;
+\* unanchored search = "*" p "*"; whole-string search = matching
 T_Find ==
-  (OK /\ ~P.mc) => \A s \in Dom : \A cfg \in Configs :
-     LET f  == FindA(A, s, cfg)
-         r  == RFindA(A, s, cfg)
-         fl == FindA(A, s, [cfg EXCEPT !.sh = FALSE])
-         fs == FindA(A, s, [cfg EXCEPT !.sh = TRUE])
-     IN /\ (f = None) = (r = None)
-        /\ f # None => /\ MatchesA(A, SubSeq(s, f[1] + 1, f[2]))
-                       /\ MatchesA(A, SubSeq(s, r[1] + 1, r[2]))
-                       /\ f[1] <= r[1]
-                       /\ fs[1] = fl[1] /\ fs[2] <= fl[2]
-                       /\ (cfg.ab => f[1] = 0 /\ r = f)
-                       /\ (cfg.ae => f[2] = Len(s) /\ r[2] = Len(s))
-        /\ (~cfg.ab /\ ~cfg.ae) =>
-              ((f # None) <=> MatchesA(<<[t |-> "s"]>> \o A \o <<[t |-> "s"]>>, s))
-        /\ (cfg.ab /\ cfg.ae) => ((f # None) <=> MatchesA(A, s))
+  LET P == Parse(p)  A == P.atoms
+      MS == {s \in Dom : MatchesA(A, s)}
+      SS == {s \in Dom : MatchesA(<<Star>> \o A \o <<Star>>, s)}
+  IN
+  (P.un = {} /\ ~P.mc) => \A s \in Dom :
+     LET Ok(i, j) == SubSeq(s, i + 1, j) \in MS
+         n == Len(s)
+     IN \A cfg \in Configs :
+        LET f  == FindG(Ok, n, cfg)
+            r  == RFindG(Ok, n, cfg)
+            fl == FindG(Ok, n, [cfg EXCEPT !.sh = FALSE])
+            fs == FindG(Ok, n, [cfg EXCEPT !.sh = TRUE])
+        IN /\ (f = None) = (r = None)
+           /\ f # None => /\ Ok(f[1], f[2]) /\ Ok(r[1], r[2])
+                          /\ f[1] <= r[1]
+                          /\ fs[1] = fl[1] /\ fs[2] <= fl[2]
+                          /\ (cfg.ab => f[1] = 0 /\ r = f)
+                          /\ (cfg.ae => f[2] = n /\ r[2] = n)
+           /\ (~cfg.ab /\ ~cfg.ae) => ((f # None) <=> s \in SS)
+           /\ (cfg.ab /\ cfg.ae) => ((f # None) <=> s \in MS)
+
+\* FindA / RFindA are FindG / RFindG over the match set (longest strings only: cost)
+T_FindDef ==
+  LET P == Parse(p)  A == P.atoms
+      MS == {s \in Dom : MatchesA(A, s)}
+  IN
+  (P.un = {} /\ ~P.mc) => \A s \in {s \in Dom : Len(s) = SLen} : \A cfg \in Configs :
+     LET Ok(i, j) == SubSeq(s, i + 1, j) \in MS IN
+     /\ FindA(A, s, cfg)  = FindG(Ok, Len(s), cfg)
+     /\ RFindA(A, s, cfg) = RFindG(Ok, Len(s), cfg)
+     /\ IsMatchA(A, s, cfg) = (FindG(Ok, Len(s), cfg) # None)
 
 Drop(s, r) == IF r = None THEN s ELSE SubSeq(s, 1, r[1]) \o SubSeq(s, r[2] + 1, Len(s))
 
-\* the four trim forms are the anchored searches (this is the rule trim.rs implements:
+\* the four trim forms are the anchored searches (the rule trim.rs implements:
 \* find for #, ## and %%, rfind for %)
 T_Trim ==
-  (OK /\ ~P.mc) => \A s \in Dom :
-     /\ TrimPrefixA(A, s, FALSE) = Drop(s, FindA(A, s, [ab |-> TRUE, ae |-> FALSE, sh |-> TRUE]))
-     /\ TrimPrefixA(A, s, TRUE)  = Drop(s, FindA(A, s, [ab |-> TRUE, ae |-> FALSE, sh |-> FALSE]))
-     /\ TrimSuffixA(A, s, TRUE)  = Drop(s, FindA(A, s, [ab |-> FALSE, ae |-> TRUE, sh |-> FALSE]))
-     /\ TrimSuffixA(A, s, FALSE) = Drop(s, RFindA(A, s, [ab |-> FALSE, ae |-> TRUE, sh |-> TRUE]))
+  LET P == Parse(p)  A == P.atoms
+      MS == {s \in Dom : MatchesA(A, s)}
+  IN
+  (P.un = {} /\ ~P.mc) => \A s \in Dom :
+     LET Ok(i, j) == SubSeq(s, i + 1, j) \in MS
+         n == Len(s)
+     IN
+     /\ TrimPrefixA(A, s, FALSE) = Drop(s, FindG(Ok, n, [ab |-> TRUE, ae |-> FALSE, sh |-> TRUE]))
+     /\ TrimPrefixA(A, s, TRUE)  = Drop(s, FindG(Ok, n, [ab |-> TRUE, ae |-> FALSE, sh |-> FALSE]))
+     /\ TrimSuffixA(A, s, TRUE)  = Drop(s, FindG(Ok, n, [ab |-> FALSE, ae |-> TRUE, sh |-> FALSE]))
+     /\ TrimSuffixA(A, s, FALSE) = Drop(s, RFindG(Ok, n, [ab |-> FALSE, ae |-> TRUE, sh |-> TRUE]))
      /\ Len(TrimPrefixA(A, s, TRUE)) <= Len(TrimPrefixA(A, s, FALSE))
      /\ Len(TrimSuffixA(A, s, TRUE)) <= Len(TrimSuffixA(A, s, FALSE))
 
 \* literal_period only removes strings with a leading period
 T_Period ==
-  OK => \A s \in Dom :
+  LET P == Parse(p)  A == P.atoms IN
+  P.un = {} => \A s \in Dom :
      /\ MatchesPeriodA(A, s) => MatchesA(A, s)
      /\ (Len(s) = 0 \/ s[1] # ".") => (MatchesPeriodA(A, s) <=> MatchesA(A, s))
 
 \* case: the first matching item
 T_Case ==
-  OK => \A s \in Dom :
-     LET star == <<[t |-> "s"]>> IN
-     /\ CaseSelectA(s, <<<<A>>, <<star>>>>) = IF MatchesA(A, s) THEN 1 ELSE 2
-     /\ CaseSelectA(s, <<<<star>>, <<A>>>>) = 1
-     /\ CaseSelectA(s, <<<<A, A>>>>) = IF MatchesA(A, s) THEN 1 ELSE 0
+  LET P == Parse(p)  A == P.atoms IN
+  P.un = {} => \A s \in Dom :
+     LET hit == MatchesA(A, s) IN
+     /\ CaseSelectA(s, <<<<A>>, <<<<Star>>>>>>) = IF hit THEN 1 ELSE 2
+     /\ CaseSelectA(s, <<<<<<Star>>>>, <<A>>>>) = 1
+     /\ CaseSelectA(s, <<<<A, A>>>>) = IF hit THEN 1 ELSE 0
+     /\ CaseSelectA(s, <<>>) = 0
 
 (***************************************************************************)
 (* Calibration.                                                            *)
